@@ -27,7 +27,7 @@ TRUSTED = [
     'harness/impl/c02_build.py: program interpreter, creation-index stamps (SynthDef._add_ugen / _replace_ugen replaced from the harness process), canonicalisation of SynthDesc',
     'topological order of the COMPILER (for all graphs) is C01/C20\'s theorem; here wf_def is evaluated on every real emitted definition',
 ]
-ASSUMES = ['the UGen catalogue of the generator (about 60 classes) stands for all unit classes: every class writes itself through SynthObject._write_def',
+ASSUMES = ['the UGen catalogue of the generator (74 classes) stands for all unit classes: every class writes itself through SynthObject._write_def',
            'SynthDesc reader mirror: unit classes are installed (class lookup by name is not modelled)']
 
 HEADER = ('From Coq Require Import ZArith List Bool. Import ListNotations.\n'
